@@ -420,6 +420,18 @@ def Dec.cutWrite (d : Dec) (uwfail : Option Nat) (s : Dec) : Dec :=
     else d
   | none => d
 
+/-- How `flush()` hands the datagrams of one unpack pass to a real UDP socket: the unpack loop flushes whenever
+`batchSize` (32) packets are pending, the rest at the end of the pass; each flush is ONE `udpBatchWriter` batch
+(`add` for every packet — the writer's capacity is the same `batchSize`, so `add` never refuses — then one
+`WriteBatch`). The batches, in order. -/
+def flushBatches : Nat → List Bytes → List (List Bytes)
+  | 0, pk => if pk.isEmpty then [] else [pk]
+  | n + 1, pk =>
+    if pk.length ≤ n + 1 then (if pk.isEmpty then [] else [pk])
+    else pk.take (n + 1) :: flushBatches (n + 1) (pk.drop (n + 1))
+termination_by _ pk => pk.length
+decreasing_by simp; omega
+
 /-! ## UDP relay: both goroutines -/
 
 structure UdpCase where
